@@ -101,7 +101,6 @@ func newScen(cfg bedConfig, r *rng.R) (*scen, error) {
 // all handshakes concurrently.  Returns how many were admitted.
 func (sc *scen) connectBatch(specs [][2]int) (admitted int) {
 	tb := sc.tb
-	base := tb.ps.banned.Load()
 	var ps []*rawPeer
 	for _, sp := range specs {
 		p, err := tb.dialTCP(sc.next, sp[0], sp[1])
@@ -114,12 +113,18 @@ func (sc *scen) connectBatch(specs [][2]int) (admitted int) {
 		sc.all = append(sc.all, p)
 	}
 	sc.stepf("connect %d inbound connections at once: %v", len(ps), specs)
-	// every allowConnect has passed its ban lookup; none of the new peers can have been inserted
-	// yet because no handshake has begun, so all of them are judged against (at least) the peers
-	// that were there before the batch
-	if !tb.waitFor(settleTimeout, func() bool { return tb.ps.banned.Load() >= base+int64(len(ps)) }) {
-		sc.failf("syncer-accept-stalled", "only %d of %d inbound connections reached allowConnect within %v", tb.ps.banned.Load()-base, len(ps), settleTimeout)
+	// What happened to each attempt is read off its outcome only: refused = the syncer closed the
+	// connection (now, or when we try to shake hands), admitted = the handshake completes and the
+	// peer is listed by Peers().  The syncer decides on accept and then waits for our handshake, so
+	// giving the refusals a moment to arrive before any handshake starts means the attempts of one
+	// batch are in practice all judged against the peers that were there before it.
+	early := make([]bool, len(ps))
+	var ew sync.WaitGroup
+	for i, p := range ps {
+		ew.Add(1)
+		go func() { defer ew.Done(); early[i] = p.refusedEarly(1500 * time.Microsecond) }()
 	}
+	ew.Wait()
 	type res struct {
 		allowed, added bool
 	}
@@ -129,6 +134,10 @@ func (sc *scen) connectBatch(specs [][2]int) (admitted int) {
 		wg.Add(1)
 		go func() {
 			defer wg.Done()
+			if early[i] {
+				p.conn.Close()
+				return
+			}
 			if err := tb.handshake(p); err != nil {
 				return
 			}
